@@ -80,7 +80,7 @@ func drawNCase(t *rapid.T, o nOpts) sim.NCase {
 	}
 	for i := rapid.IntRange(1, o.MaxCands).Draw(t, "ncand"); i > 0; i-- {
 		c.Steps = append(c.Steps, sim.NStep{K: "cand", Kind: rapid.SampledFrom(o.Kinds).Draw(t, "kind"), From: rapid.IntRange(0, 8).Draw(t, "from"),
-			A: rapid.IntRange(0, 15).Draw(t, "a"), B: rapid.IntRange(0, 15).Draw(t, "b"), Muts: drawMutations(t, o)})
+			A: rapid.IntRange(0, 15).Draw(t, "a"), B: rapid.IntRange(0, 63).Draw(t, "b"), Muts: drawMutations(t, o)})
 		if rapid.IntRange(0, 4).Draw(t, "tmo-between") == 0 {
 			c.Steps = append(c.Steps, sim.NStep{K: "timeout"})
 		}
